@@ -35,7 +35,7 @@ def run_pipeline(binary, name, cases, engine="pipeline", timeout=3000, env=None)
 
 
 def generate(ck, cfgname, name, simulate=None, depth=40, workers=1, timeout=900, tag="REPLAY"):
-    module = "StarkCorrupt.tla" if "Corrupt" in cfgname else "MCStarkCfg.tla"
+    module = "StarkCorrupt.tla" if "Corrupt" in cfgname else "Coeffs.tla" if cfgname.startswith("Coeffs") else "MCStarkCfg.tla"
     r = vf.tlc(module, cfgname, cwd=SPECDIR, workers=workers, simulate=simulate, depth=depth,
                seed=ck.seed if simulate else None, timeout=timeout)
     if not r.ok:
